@@ -13,3 +13,28 @@ package webhook
 //@   ensures [whole] !(maxAlerts != 0 && len(alerts) > maxAlerts) ==> result0 == alerts && result1 == 0
 //@   ensures [accounted] len(result0) + result1 == len(alerts)
 //@   assigns nothing
+
+// C20: the webhook integration's verdicts. Whatever goes wrong before the request is sent is final (not retried);
+// a request that fails in transport - refused, reset, timed out, also by the integration's own per-request timeout -
+// is recoverable, so the retry stage tries again until the flush's own deadline; once there is a response the status
+// code decides through Retrier.Check (2xx success, 5xx and configured codes recoverable, the rest final).
+// The template data is built from the batch after max_alerts truncation.
+//@ func (*Notifier).Notify
+//@   props C20
+//@   nosafe
+//@   abstract
+//@   requires n != nil && n.conf != nil && n.retrier != nil
+//@   at call GetTemplateData assert [data-of-the-truncated-batch] called("truncateAlerts") && arg2 == ret("truncateAlerts")
+//@   at call truncateAlerts assert [configured-maximum] arg0 == n.conf.MaxAlerts && arg1 == alerts
+//@   at call notify.PostJSON assert [sent-only-to-a-rendered-non-empty-url] arg2 != "" && tmplErr == nil && arg1 == n.client
+//@   at call notify.PostJSON assert [custom-payload-rendered-when-configured] n.conf.Payload != nil ==> called("renderPayload") && ret1("renderPayload") == nil
+//@   at call renderPayload assert [custom-payload-only-when-configured] n.conf.Payload != nil
+//@   ensures [a-transport-failure-is-recoverable] called("notify.PostJSON") && ret1("notify.PostJSON") != nil ==> result0 && result1 != nil && !called("Retrier).Check")
+//@   ensures [with-a-response-the-status-decides] called("Retrier).Check") ==> result0 == ret("Retrier).Check") && (result1 != nil) == (ret1("Retrier).Check") != nil)
+//@   ensures [a-response-is-judged] called("notify.PostJSON") && ret1("notify.PostJSON") == nil ==> called("Retrier).Check")
+//@   ensures [a-failure-before-sending-is-final] !called("notify.PostJSON") ==> !result0 && result1 != nil
+//@   after call notify.RedactURL assume (res0 != nil) == (arg0 != nil)
+//@   after call fmt.Errorf assume res0 != nil
+//@   after call errors.New assume res0 != nil
+//@   after call notify.NewErrorWithReason assume res0 != nil
+//@   noeffect GetTemplateData ExtractGroupKey renderPayload notify.PostJSON RedactURL Drain NewErrorWithReason GetFailureReasonFromStatusCode
